@@ -1555,6 +1555,33 @@ func (e *Engine) intConv(x string, from, to *types.Basic) string {
 	if fu && !tu && tb > fb {
 		return x
 	}
+	// a literal operand: fold the conversion (keeps shift counts and divisors syntactically constant)
+	if n, ok := constIntString(x); ok && tb <= 64 {
+		if tu {
+			if tb < 64 {
+				m := int64(1) << uint(tb)
+				r := n % m
+				if r < 0 {
+					r += m
+				}
+				return sInt(r)
+			} else if n >= 0 {
+				return sInt(n)
+			}
+		} else if tb < 64 {
+			m := int64(1) << uint(tb)
+			r := n % m
+			if r < 0 {
+				r += m
+			}
+			if r >= m/2 {
+				r -= m
+			}
+			return sInt(r)
+		} else if !fu {
+			return sInt(n)
+		}
+	}
 	if tu {
 		return fmt.Sprintf("(go.wrapu %s %s)", x, pow2(tb))
 	}
